@@ -16,9 +16,114 @@ pub const REQUIRED: &[&str] = &[
     "schedule.cursor", "cross_format",
 ];
 
+// --- step-bounded execution ---------------------------------------------------------------------
+// Every reader call runs on a worker thread. Termination is decided on the CPU time the worker
+// consumed (work done), not on the clock: a reader that has burnt HANG_CPU_S seconds of CPU on an
+// input of at most a few kilobytes (normal cost: microseconds) is not going to return. The wall
+// clock is only the trigger for looking at the CPU counter; a starved worker is inconclusive.
+
+const POLL_WALL_S: u64 = 10;
+const HANG_CPU_S: f64 = 8.0;
+const GIVE_UP_WALL_S: u64 = 600;
+
+struct Job {
+    format: Format,
+    protein: bool,
+    input: Vec<u8>,
+    sched: Option<Schedule>,
+}
+
+struct JobResult {
+    res: Result<Outcome, String>,
+    polled: u64,
+}
+
+struct Worker {
+    tx: std::sync::mpsc::Sender<Job>,
+    rx: std::sync::mpsc::Receiver<JobResult>,
+    tid: u64,
+}
+
+fn thread_cpu_seconds(tid: u64) -> Option<f64> {
+    let stat = std::fs::read_to_string(format!("/proc/self/task/{}/stat", tid)).ok()?;
+    let rest = &stat[stat.rfind(')')? + 2..];
+    let f: Vec<&str> = rest.split_whitespace().collect();
+    // fields after the command name: state is index 0, utime index 11, stime index 12
+    let ticks = f.get(11)?.parse::<f64>().ok()? + f.get(12)?.parse::<f64>().ok()?;
+    Some(ticks / 100.0)
+}
+
+impl Worker {
+    fn new() -> Worker {
+        let (tx, jrx) = std::sync::mpsc::channel::<Job>();
+        let (rtx, rx) = std::sync::mpsc::channel::<JobResult>();
+        let (ttx, trx) = std::sync::mpsc::channel::<u64>();
+        std::thread::Builder::new()
+            .stack_size(32 << 20)
+            .spawn(move || {
+                let tid = std::fs::read_to_string("/proc/thread-self/stat")
+                    .ok()
+                    .and_then(|s| s.split_whitespace().next().and_then(|t| t.parse::<u64>().ok()))
+                    .unwrap_or(0);
+                let _ = ttx.send(tid);
+                while let Ok(job) = jrx.recv() {
+                    let mut polled = 0u64;
+                                    let res = match &job.sched {
+                        None => guard(|| read_all(job.format, job.protein, Cursor::new(&job.input[..]), job.input.len())),
+                        Some(s) => {
+                            let (b, counters) = chunked(&job.input, s);
+                            let r = guard(|| read_all(job.format, job.protein, b, job.input.len()));
+                            polled = counters.eof_reads.get();
+                            r
+                        }
+                    };
+                    if rtx.send(JobResult { res, polled }).is_err() {
+                        break;
+                    }
+                }
+            })
+            .expect("cannot spawn the reader worker");
+        let tid = trx.recv().unwrap_or(0);
+        Worker { tx, rx, tid }
+    }
+}
+
+enum Ran {
+    Done(JobResult),
+    /// the worker consumed this many CPU seconds without returning
+    Hang(f64),
+    Starved,
+}
+
+fn run_job(worker: &mut Worker, job: Job) -> Ran {
+    let cpu0 = thread_cpu_seconds(worker.tid).unwrap_or(0.0);
+    if worker.tx.send(job).is_err() {
+        return Ran::Starved;
+    }
+    let t0 = std::time::Instant::now();
+    loop {
+        match worker.rx.recv_timeout(std::time::Duration::from_secs(POLL_WALL_S)) {
+            Ok(r) => return Ran::Done(r),
+            Err(std::sync::mpsc::RecvTimeoutError::Disconnected) => return Ran::Starved,
+            Err(std::sync::mpsc::RecvTimeoutError::Timeout) => {
+                let used = thread_cpu_seconds(worker.tid).unwrap_or(0.0) - cpu0;
+                if used >= HANG_CPU_S {
+                    // abandon the spinning thread (it cannot be stopped) and continue on a fresh worker
+                    *worker = Worker::new();
+                    return Ran::Hang(used);
+                }
+                if t0.elapsed().as_secs() > GIVE_UP_WALL_S {
+                    *worker = Worker::new();
+                    return Ran::Starved;
+                }
+            }
+        }
+    }
+}
+
 const BYTES: [u8; 16] = [b'>', b'[', b']', b':', b'/', b'\t', b' ', b'\n', b'\r', b'7', b'A', b'N', 0x00, 0x80, 0xFF, b'.'];
 
-fn feed(case: u64, rng: &mut Rng, rep: &mut Report, format: Format, protein: bool, input: &[u8], class: &str, base_label: &str) {
+fn feed(worker: &mut Worker, case: u64, rng: &mut Rng, rep: &mut Report, format: Format, protein: bool, input: &[u8], class: &str, base_label: &str) {
     rep.eval();
     rep.cover(&format!("reader.{}", format.name()));
     if protein {
@@ -34,17 +139,8 @@ fn feed(case: u64, rng: &mut Rng, rep: &mut Report, format: Format, protein: boo
         interrupt: if rng.chance(0.3) { 0.2 } else { 0.0 },
         seed: rng.next_u64(),
     };
-    let mut polled = 0u64;
-    let res = if use_cursor {
-        rep.cover("schedule.cursor");
-        guard(|| read_all(format, protein, Cursor::new(input), input.len()))
-    } else {
-        rep.cover("schedule.chunked");
-        let (b, counters) = chunked(input, &sched);
-        let r = guard(|| read_all(format, protein, b, input.len()));
-        polled = counters.eof_reads.get();
-        r
-    };
+    rep.cover(if use_cursor { "schedule.cursor" } else { "schedule.chunked" });
+    let ran = run_job(worker, Job { format, protein, input: input.to_vec(), sched: if use_cursor { None } else { Some(sched) } });
     let wit = || {
         J::obj()
             .set("reader", J::s(format.name()))
@@ -55,6 +151,22 @@ fn feed(case: u64, rng: &mut Rng, rep: &mut Report, format: Format, protein: boo
             .set("input_len", J::u(input.len()))
             .set("input_lossy", J::s(String::from_utf8_lossy(&input[..input.len().min(400)]).to_string()))
             .set("input_bytes", J::Arr(input.iter().take(400).map(|&b| J::u(b as usize)).collect()))
+    };
+    let (res, polled) = match ran {
+        Ran::Done(r) => (r.res, r.polled),
+        Ran::Hang(cpu) => {
+            rep.violate(
+                "c15.hang",
+                case,
+                format!("{} reader did not return on a {} input of {} bytes after consuming {:.1} s of CPU time (normal cost: microseconds): a consumer of this reader never terminates", format.name(), class, input.len(), cpu),
+                wit(),
+            );
+            return;
+        }
+        Ran::Starved => {
+            rep.harness_errors.push(format!("reader worker got no CPU for {} s on a {} byte input: inconclusive", GIVE_UP_WALL_S, input.len()));
+            return;
+        }
     };
     match res {
         Err(p) => rep.violate(
@@ -84,13 +196,14 @@ fn feed(case: u64, rng: &mut Rng, rep: &mut Report, format: Format, protein: boo
 
 fn derive_and_feed(case: u64, rng: &mut Rng, rep: &mut Report, cfg: &Config, format: Format, protein: bool, base: &[u8], label: &str) {
     let others: Vec<Format> = FORMATS.iter().cloned().filter(|f| *f != format).collect();
+    let mut worker = Worker::new();
     let mut send = |rng: &mut Rng, rep: &mut Report, input: &[u8], class: &str| {
         rep.cover(&format!("input.{}", class));
-        feed(case, rng, rep, format, protein, input, class, label);
+        feed(&mut worker, case, rng, rep, format, protein, input, class, label);
         if rng.chance(0.25) {
             rep.cover("cross_format");
             let f = *rng.pick(&others);
-            feed(case, rng, rep, f, protein && f != Format::Jaspar, input, class, label);
+            feed(&mut worker, case, rng, rep, f, protein && f != Format::Jaspar, input, class, label);
         }
     };
     // the base file itself must be fine
@@ -201,22 +314,44 @@ fn derive_and_feed(case: u64, rng: &mut Rng, rep: &mut Report, cfg: &Config, for
             send(rng, rep, t.as_bytes(), "ragged");
         }
     }
-    // huge numbers: replace a digit run by a very long one
-    if let Some(p) = base.iter().position(|b| b.is_ascii_digit()) {
-        for big in ["99999999999999999999999999", "4294967296", "1e400", "-5", "0.0000000000000000000000000000000000000000000001", "NaN", "inf"] {
+    // special numbers: replace digit runs (the first one and several random ones; a run may be a
+    // matrix cell, a row label, part of an identifier) by overflowing / non-finite / negative tokens
+    let starts: Vec<usize> = (0..base.len()).filter(|&i| base[i].is_ascii_digit() && (i == 0 || !(base[i - 1].is_ascii_digit() || base[i - 1] == b'.'))).collect();
+    if !starts.is_empty() {
+        let mut chosen = vec![starts[0]];
+        for _ in 0..6 {
+            chosen.push(*rng.pick(&starts));
+        }
+        for p in chosen {
             let mut end = p;
-            while end < base.len() && base[end].is_ascii_digit() {
+            while end < base.len() && (base[end].is_ascii_digit() || base[end] == b'.') {
                 end += 1;
             }
-            let mut t = base[..p].to_vec();
-            t.extend_from_slice(big.as_bytes());
-            t.extend_from_slice(&base[end..]);
-            send(rng, rep, &t, "huge_number");
+            for big in ["99999999999999999999999999", "4294967296", "1e400", "1e39", "-5", "0.0000000000000000000000000000000000000000000001", "NaN", "nan", "inf", "-inf", "infinity"] {
+                let mut t = base[..p].to_vec();
+                t.extend_from_slice(big.as_bytes());
+                t.extend_from_slice(&base[end..]);
+                send(rng, rep, &t, "huge_number");
+            }
+            // two non-finite cells in one record (inf and -inf may cancel to NaN in a row sum)
+            if let Some(&q) = starts.iter().find(|&&q| q > end) {
+                let mut qe = q;
+                while qe < base.len() && (base[qe].is_ascii_digit() || base[qe] == b'.') {
+                    qe += 1;
+                }
+                let mut t = base[..p].to_vec();
+                t.extend_from_slice(b"inf");
+                t.extend_from_slice(&base[end..q]);
+                t.extend_from_slice(b"-inf");
+                t.extend_from_slice(&base[qe..]);
+                send(rng, rep, &t, "huge_number");
+            }
         }
     }
 }
 
 fn fixed_inputs(case: u64, rng: &mut Rng, rep: &mut Report) {
+    let mut worker = Worker::new();
     let fixed: Vec<(&[u8], &str)> = vec![
         (b"", "empty"),
         (b" ", "empty"),
@@ -252,9 +387,9 @@ fn fixed_inputs(case: u64, rng: &mut Rng, rep: &mut Report) {
     for (input, class) in fixed {
         for &format in FORMATS.iter() {
             rep.cover(&format!("input.{}", class));
-            feed(case, rng, rep, format, false, input, class, "fixed");
+            feed(&mut worker, case, rng, rep, format, false, input, class, "fixed");
             if format != Format::Jaspar {
-                feed(case, rng, rep, format, true, input, class, "fixed");
+                feed(&mut worker, case, rng, rep, format, true, input, class, "fixed");
             }
         }
     }
@@ -270,7 +405,7 @@ fn fixed_inputs(case: u64, rng: &mut Rng, rep: &mut Report) {
         let class = if std::str::from_utf8(&input).is_err() { "invalid_utf8" } else { "random_bytes" };
         rep.cover(&format!("input.{}", class));
         for &format in FORMATS.iter() {
-            feed(case, rng, rep, format, i % 8 == 7 && format != Format::Jaspar, &input, class, "random");
+            feed(&mut worker, case, rng, rep, format, i % 8 == 7 && format != Format::Jaspar, &input, class, "random");
         }
     }
 }
